@@ -17,7 +17,7 @@ import os, re, sys
 
 REPO = os.environ.get("VERIF_REPO", "/repo")
 VERIF = os.path.dirname(os.path.dirname(os.path.abspath(__file__)))
-GEN = os.path.join(VERIF, "lean", "DicomModel", "Gen")
+GEN = os.path.join(os.environ.get("VERIF_LEAN_DIR") or os.path.join(VERIF, "lean"), "DicomModel", "Gen")
 CHUNK = 64
 
 
